@@ -484,7 +484,7 @@ func corePolicies() [][]ruleSpec {
 		{ruleOf(pick("principals", "exact", false)), ruleOf(pick("namespaces", "prefix", false))},
 		{ruleOf(pick("ports", "exact", false), pick("hosts", "exact", false)), ruleOf(pick("ports", "exact-8080", false))},
 		{ruleOf(pick("namespaces", "exact", false), pick("paths", "prefix", false))},
-		{{}},  // one empty rule: matches everything
-		nil,   // no rules: matches nothing (valid for ALLOW only)
+		{{}}, // one empty rule: matches everything
+		nil,  // no rules: matches nothing (valid for ALLOW only)
 	}
 }
